@@ -1,12 +1,38 @@
 //go:build verif
 
 // Correspondence driver for C05 (wire fast path ≡ decoded path).
+//
+// Function-level ops (compared line by line with the Lean model, each with
+// an independent oracle built on the DNS library / the RFC text):
+//
+//	pw  parse <hex>                       real middleware.Request.ParseWire
+//	ar  apply|clearad|set ...             real wire.ApplyReply / ClearAD / SetRcode / SetRA / SetAD
+//	opt build k=v...                      real edns wireOPTLen + appendWireOPT
+//	hit serve k=v...                      real CacheEntry.serveWireIntoRequest vs CacheEntry.ToMsg
+//	lad run k=v...                        real Cache ladder through the live server (inline pass vs ServeMsg)
+//
+// End-to-end differential ops (oracle only, see e2e.go): e2e new|q|raw|stop.
 package main
 
 import (
+	"crypto/sha256"
+	"encoding/binary"
+	"encoding/hex"
+	"fmt"
+	"net"
 	"strings"
+	"time"
 
+	"github.com/miekg/dns"
+	"github.com/semihalev/sdns/config"
+	"github.com/semihalev/sdns/internal/dnsutil"
+	"github.com/semihalev/sdns/internal/mock"
 	"github.com/semihalev/sdns/internal/verif/vlib"
+	"github.com/semihalev/sdns/internal/wire"
+	"github.com/semihalev/sdns/middleware"
+	"github.com/semihalev/sdns/middleware/cache"
+	"github.com/semihalev/sdns/middleware/edns"
+	"github.com/semihalev/sdns/server"
 )
 
 func exec(op string) vlib.Res {
@@ -14,16 +40,587 @@ func exec(op string) vlib.Res {
 	if len(f) < 2 {
 		return vlib.Res{Impl: "bad-op"}
 	}
+	if f[1] == "new" && f[0] != "e2e" && f[0] != "lad" {
+		return vlib.Res{Impl: "ok", Oracle: "-"}
+	}
 	switch f[0] {
 	case "e2e":
 		return execE2E(f)
+	case "pw":
+		if f[1] == "parse" && len(f) == 3 {
+			return execPW(vlib.UnHex(f[2]))
+		}
+	case "ar":
+		return execAR(f)
+	case "opt":
+		if f[1] == "build" {
+			return execOPT(kv(f[2:]))
+		}
+	case "hit":
+		if f[1] == "serve" {
+			return execHit(kv(f[2:]))
+		}
+	case "lad":
+		return execLad(f)
 	}
 	return vlib.Res{Impl: "bad-op"}
 }
 
-func gen(r *vlib.R, n int, tier string, emit func(string)) {}
+// ---------------------------------------------------------------- pw
 
-func facts() map[string]any { return map[string]any{} }
+func hdrWord(h dns.MsgHdr) uint16 {
+	var w uint16
+	set := func(b bool, bit uint) {
+		if b {
+			w |= 1 << bit
+		}
+	}
+	set(h.Response, 15)
+	w |= uint16(h.Opcode&0xF) << 11
+	set(h.Authoritative, 10)
+	set(h.Truncated, 9)
+	set(h.RecursionDesired, 8)
+	set(h.RecursionAvailable, 7)
+	set(h.Zero, 6)
+	set(h.AuthenticatedData, 5)
+	set(h.CheckingDisabled, 4)
+	w |= uint16(h.Rcode & 0xF)
+	return w
+}
+
+func execPW(raw []byte) vlib.Res {
+	ok, f := middleware.VerifC05ParseWire(raw)
+	// the library is the specification decoder of the oracle
+	m := new(dns.Msg)
+	err := m.Unpack(raw)
+	if !ok {
+		tags := "rej"
+		if err == nil && len(m.Question) == 1 {
+			tags = "rej,nt" // conservative refusal of a decodable query
+		}
+		return vlib.Res{Impl: "rej", Oracle: "ok", Tags: tags}
+	}
+	ck := "-"
+	if f.CookieLen > 0 && f.CookieOff+f.CookieLen <= len(raw) {
+		ck = hex.EncodeToString(raw[f.CookieOff : f.CookieOff+f.CookieLen])
+	}
+	impl := fmt.Sprintf("ok id=%d fl=%d qt=%d qc=%d nl=%d qe=%d opt=%s udp=%d do=%s ver=%d ecs=%s nsid=%s ka=%s ck=%s",
+		f.ID, f.Flags, f.Qtype, f.Qclass, f.NameLen, f.QuestionEnd, vlib.B(f.HasOPT), f.UDPSize, vlib.B(f.DO), f.Version,
+		vlib.B(f.HasECS), vlib.B(f.HasNSID), vlib.B(f.HasKeepalive), ck)
+	bad := func(sig, d string) vlib.Res {
+		return vlib.Res{Impl: impl, Oracle: "FAIL sig=c05/parsewire/" + sig + " " + d, Tags: "nt"}
+	}
+	if err != nil {
+		return bad("accepted-undecodable", err.Error())
+	}
+	if m.Id != f.ID || hdrWord(m.MsgHdr) != f.Flags {
+		return bad("header-facts", fmt.Sprintf("lib id=%d flags=%d", m.Id, hdrWord(m.MsgHdr)))
+	}
+	if m.Opcode != dns.OpcodeQuery || m.Response {
+		return bad("accepted-non-query", fmt.Sprintf("opcode=%d qr=%v", m.Opcode, m.Response))
+	}
+	if len(m.Question) != 1 || len(m.Answer) != 0 || len(m.Ns) != 0 {
+		return bad("accepted-extra-sections", fmt.Sprintf("qd=%d an=%d ns=%d", len(m.Question), len(m.Answer), len(m.Ns)))
+	}
+	q := m.Question[0]
+	if q.Qtype != f.Qtype || q.Qclass != f.Qclass {
+		return bad("question-facts", fmt.Sprintf("lib qtype=%d qclass=%d", q.Qtype, q.Qclass))
+	}
+	nb := make([]byte, 300)
+	if end, perr := dns.PackDomainName(q.Name, nb, 0, nil, false); perr != nil || f.NameOff != 12 ||
+		f.NameOff+f.NameLen > len(raw) || string(nb[:end]) != string(raw[f.NameOff:f.NameOff+f.NameLen]) || f.QuestionEnd != f.NameOff+f.NameLen+4 {
+		return bad("name-facts", fmt.Sprintf("lib name=%q", q.Name))
+	}
+	nOPT, other := 0, 0
+	for _, r := range m.Extra {
+		if r.Header().Rrtype == dns.TypeOPT {
+			nOPT++
+		} else {
+			other++
+		}
+	}
+	wantOPT := 0
+	if f.HasOPT {
+		wantOPT = 1
+	}
+	if other != 0 || nOPT != wantOPT {
+		return bad("accepted-trailing-records", fmt.Sprintf("opt=%d other=%d", nOPT, other))
+	}
+	total := f.QuestionEnd
+	if f.HasOPT {
+		opt := m.IsEdns0()
+		if opt.UDPSize() != f.UDPSize || opt.Do() != f.DO || opt.Version() != f.Version || opt.ExtendedRcode() != 0 || opt.Hdr.Name != "." {
+			return bad("opt-facts", fmt.Sprintf("lib udp=%d do=%v ver=%d xr=%d", opt.UDPSize(), opt.Do(), opt.Version(), opt.ExtendedRcode()))
+		}
+		var ecs, nsid, ka bool
+		cookies := []string{}
+		for _, o := range opt.Option {
+			switch v := o.(type) {
+			case *dns.EDNS0_SUBNET:
+				ecs = true
+			case *dns.EDNS0_NSID:
+				nsid = true
+			case *dns.EDNS0_TCP_KEEPALIVE:
+				ka = true
+			case *dns.EDNS0_COOKIE:
+				cookies = append(cookies, v.Cookie)
+			case *dns.EDNS0_PADDING:
+			default:
+				return bad("accepted-unknown-option", fmt.Sprintf("code=%d", o.Option()))
+			}
+		}
+		if ecs != f.HasECS || nsid != f.HasNSID || ka != f.HasKeepalive {
+			return bad("option-facts", fmt.Sprintf("lib ecs=%v nsid=%v ka=%v", ecs, nsid, ka))
+		}
+		if len(cookies) > 1 || (len(cookies) == 1) != (ck != "-") || (len(cookies) == 1 && cookies[0] != ck) {
+			return bad("cookie-facts", fmt.Sprintf("lib cookies=%v", cookies))
+		}
+		if len(cookies) == 1 && (len(ck) < 16 || len(ck) > 80) {
+			return bad("cookie-length", ck)
+		}
+		total += 11 + int(binary.BigEndian.Uint16(raw[f.QuestionEnd+9:]))
+	}
+	if total != len(raw) {
+		return bad("accepted-trailing-bytes", fmt.Sprintf("consumed=%d len=%d", total, len(raw)))
+	}
+	return vlib.Res{Impl: impl, Oracle: "ok", Tags: "nt"}
+}
+
+// ---------------------------------------------------------------- ar
+
+func execAR(f []string) vlib.Res {
+	body := make([]byte, 12)
+	flagsOf := func(s string) uint16 { return uint16(vlib.Atoi(s)) }
+	unpackHdr := func(w uint16) dns.MsgHdr {
+		b := make([]byte, 12)
+		binary.BigEndian.PutUint16(b[2:], w)
+		m := new(dns.Msg)
+		if err := m.Unpack(b); err != nil {
+			panic(err)
+		}
+		return m.MsgHdr
+	}
+	switch f[1] {
+	case "apply":
+		if len(f) != 7 {
+			break
+		}
+		fl, id, op := flagsOf(f[2]), vlib.Atoi(f[3]), vlib.Atoi(f[4])
+		rd, cd := f[5] == "t", f[6] == "t"
+		binary.BigEndian.PutUint16(body[2:], fl)
+		wire.ApplyReply(body, uint16(id), op, rd, cd)
+		gid, gfl := binary.BigEndian.Uint16(body[0:]), binary.BigEndian.Uint16(body[2:])
+		// oracle: the decoded path's shaping through the library
+		h := unpackHdr(fl)
+		resp := &dns.Msg{MsgHdr: h}
+		req := &dns.Msg{MsgHdr: dns.MsgHdr{Id: uint16(id), Opcode: op & 0xF, RecursionDesired: rd, CheckingDisabled: cd}}
+		rc := resp.Rcode
+		resp.SetReply(req)
+		if op&0xF != 0 {
+			// SetReply copies RD/CD for plain queries only; ApplyReply documents an unconditional copy
+			resp.RecursionDesired, resp.CheckingDisabled = rd, cd
+		}
+		resp.Rcode = rc
+		resp.Authoritative = false
+		or := "ok"
+		if want := hdrWord(resp.MsgHdr); want != gfl || gid != uint16(id) {
+			or = fmt.Sprintf("FAIL sig=c05/applyreply/differs-from-setreply want=%04x got=%04x id=%d", want, gfl, gid)
+		}
+		return vlib.Res{Impl: fmt.Sprintf("id=%d fl=%d", gid, gfl), Oracle: or, Tags: "nt"}
+	case "clearad":
+		fl := flagsOf(f[2])
+		binary.BigEndian.PutUint16(body[2:], fl)
+		wire.ClearAD(body)
+		g := binary.BigEndian.Uint16(body[2:])
+		h := unpackHdr(fl)
+		h.AuthenticatedData = false
+		or := "ok"
+		if hdrWord(h) != g {
+			or = fmt.Sprintf("FAIL sig=c05/clearad want=%04x got=%04x", hdrWord(h), g)
+		}
+		return vlib.Res{Impl: fmt.Sprintf("fl=%d", g), Oracle: or}
+	case "set":
+		if len(f) != 5 {
+			break
+		}
+		fl, v := flagsOf(f[3]), vlib.Atoi(f[4])
+		binary.BigEndian.PutUint16(body[2:], fl)
+		h := unpackHdr(fl)
+		switch f[2] {
+		case "rcode":
+			wire.SetRcode(body, v)
+			h.Rcode = v & 0xF
+		case "ra":
+			wire.SetRA(body)
+			h.RecursionAvailable = true
+		case "ad":
+			wire.SetAD(body)
+			h.AuthenticatedData = true
+		default:
+			return vlib.Res{Impl: "bad-op"}
+		}
+		g := binary.BigEndian.Uint16(body[2:])
+		or := "ok"
+		if hdrWord(h) != g {
+			or = fmt.Sprintf("FAIL sig=c05/setflag/%s want=%04x got=%04x", f[2], hdrWord(h), g)
+		}
+		return vlib.Res{Impl: fmt.Sprintf("fl=%d", g), Oracle: or}
+	}
+	return vlib.Res{Impl: "bad-op"}
+}
+
+// ---------------------------------------------------------------- opt
+
+func hexOrNil(s string) []byte {
+	if s == "" || s == "-" {
+		return nil
+	}
+	return vlib.UnHex(s)
+}
+
+func execOPT(a map[string]string) vlib.Res {
+	ip := net.IP(hexOrNil(a["ip"]))
+	secret := string(hexOrNil(a["secret"]))
+	nsid := string(hexOrNil(a["nsid"]))
+	ck := hexOrNil(a["ck"])
+	e := edns.New(&config.Config{CookieSecret: secret, NSID: nsid})
+	inner := mock.NewWriter("udp", net.JoinHostPort(ip.String(), "4242"))
+	spec := edns.VerifC05OPTSpec{NoEDNS: a["ne"] == "t", DO: a["do"] == "t", RespUDPSize: uint16(vlib.Atoi(a["udp"])),
+		CookieRaw: ck, NSIDAsked: a["nq"] == "t", Keepalive: a["ka"] == "t"}
+	info := middleware.WireInfo{}
+	if a["ec"] != "-" && a["ec"] != "" {
+		info.HasEDE = true
+		info.EDECode = uint16(vlib.Atoi(a["ec"]))
+		info.EDEText = string(hexOrNil(a["et"]))
+	}
+	n, lenOK, opt, ok := edns.VerifC05WireOPT(e, inner, spec, info)
+	ls, os := "x", "x"
+	if lenOK {
+		ls = fmt.Sprint(n)
+	}
+	if spec.NoEDNS {
+		os = "-"
+	} else if ok {
+		os = vlib.Hex(opt)
+	}
+	impl := fmt.Sprintf("len=%s opt=%s", ls, os)
+
+	// ---- oracle 1: the op line's own consistency (digest/addr length are model inputs)
+	addr := ip
+	if v4 := ip.To4(); v4 != nil {
+		addr = v4
+	}
+	text := addr.String()
+	h := sha256.New()
+	h.Write([]byte(text))
+	h.Write([]byte(hex.EncodeToString(ck)))
+	h.Write([]byte(secret))
+	digest := h.Sum(nil)
+	if ck != nil && hex.EncodeToString(digest) != a["dg"] {
+		return vlib.Res{Impl: impl, Oracle: "FAIL sig=c05/opt/op-line-digest-mismatch (generator bug)"}
+	}
+	// ---- oracle 2: the DNS library packs the OPT the Msg path would build
+	or := "ok"
+	if !spec.NoEDNS && ok {
+		o := new(dns.OPT)
+		o.Hdr.Name, o.Hdr.Rrtype = ".", dns.TypeOPT
+		o.SetUDPSize(spec.RespUDPSize)
+		if spec.DO {
+			o.SetDo()
+		}
+		if ck != nil {
+			o.Option = append(o.Option, &dns.EDNS0_COOKIE{Code: dns.EDNS0COOKIE, Cookie: dnsutil.GenerateServerCookie(secret, text, hex.EncodeToString(ck))})
+		}
+		if nsid != "" && spec.NSIDAsked {
+			o.Option = append(o.Option, &dns.EDNS0_NSID{Code: dns.EDNS0NSID, Nsid: hex.EncodeToString([]byte(nsid))})
+		}
+		if spec.Keepalive {
+			o.Option = append(o.Option, &dns.EDNS0_TCP_KEEPALIVE{Code: dns.EDNS0TCPKEEPALIVE, Timeout: 80})
+		}
+		if info.HasEDE {
+			o.Option = append(o.Option, &dns.EDNS0_EDE{InfoCode: info.EDECode, ExtraText: info.EDEText})
+		}
+		pm := &dns.Msg{Extra: []dns.RR{o}}
+		pb, err := pm.Pack()
+		if err != nil {
+			or = "FAIL sig=c05/opt/library-cannot-pack " + err.Error()
+		} else if string(pb[12:]) != string(opt) {
+			or = fmt.Sprintf("FAIL sig=c05/opt/bytes-differ-from-packed-opt want=%x got=%x", pb[12:], opt)
+		}
+		if or == "ok" && lenOK {
+			reserve := 0
+			if info.HasEDE {
+				reserve = 4 + 2 + len(info.EDEText)
+			}
+			if n+reserve != len(opt) {
+				or = fmt.Sprintf("FAIL sig=c05/opt/reserve-differs-from-length reserve=%d len=%d", n+reserve, len(opt))
+			}
+		}
+	}
+	if !spec.NoEDNS && lenOK && !ok {
+		or = "FAIL sig=c05/opt/late-decline-after-preflight"
+	}
+	return vlib.Res{Impl: impl, Oracle: or, Tags: "nt"}
+}
+
+// ---------------------------------------------------------------- hit
+
+func execHit(a map[string]string) vlib.Res {
+	ttl, el, n := vlib.Atoi(a["ttl"]), vlib.Atoi(a["el"]), vlib.Atoi(a["n"])
+	ad, cd := a["ad"] == "t", a["cd"] == "t"
+	name := "Hit.Example.test."
+	resp := new(dns.Msg)
+	resp.Response = true
+	resp.RecursionAvailable = true
+	resp.AuthenticatedData = ad
+	resp.CheckingDisabled = cd
+	resp.Question = []dns.Question{{Name: strings.ToLower(name), Qtype: dns.TypeA, Qclass: dns.ClassINET}}
+	for i := 0; i < n; i++ {
+		r := &dns.A{Hdr: dns.RR_Header{Name: strings.ToLower(name), Rrtype: dns.TypeA, Class: dns.ClassINET, Ttl: uint32(700 + i)}, A: net.IPv4(192, 0, 2, byte(i+1))}
+		switch i % 3 {
+		case 0:
+			resp.Answer = append(resp.Answer, r)
+		case 1:
+			resp.Ns = append(resp.Ns, &dns.NS{Hdr: dns.RR_Header{Name: "example.test.", Rrtype: dns.TypeNS, Class: dns.ClassINET, Ttl: uint32(900 + i)}, Ns: fmt.Sprintf("ns%d.example.test.", i)})
+		default:
+			r.Hdr.Name = fmt.Sprintf("ns%d.example.test.", i)
+			resp.Extra = append(resp.Extra, r)
+		}
+	}
+	q := new(dns.Msg)
+	q.SetQuestion(name, dns.TypeA)
+	q.Id = 4242
+	q.CheckingDisabled = cd
+	pkt, _ := q.Pack()
+	wreq := middleware.VerifC05WireRequest(pkt)
+	if wreq == nil {
+		return vlib.Res{Impl: "no-wire-request"}
+	}
+	body, info, ok, msg := cache.VerifC05EntryServe(resp, time.Duration(ttl)*time.Second, time.Duration(el)*time.Millisecond, wreq, false)
+	describe := func(m *dns.Msg) string {
+		var ttls []uint32
+		for _, s := range [][]dns.RR{m.Answer, m.Ns, m.Extra} {
+			for _, r := range s {
+				ttls = append(ttls, r.Header().Ttl)
+			}
+		}
+		t := "none"
+		if len(ttls) > 0 {
+			t = fmt.Sprint(ttls[0])
+			for _, x := range ttls {
+				if x != ttls[0] {
+					t = "mixed"
+				}
+			}
+		}
+		return fmt.Sprintf("%s/%s/%d", t, vlib.B(m.AuthenticatedData), len(ttls))
+	}
+	ws, ms := "x", "x"
+	or := "ok"
+	var wm *dns.Msg
+	if ok {
+		wm = new(dns.Msg)
+		if err := wm.Unpack(body); err != nil {
+			return vlib.Res{Impl: "w=garbled", Oracle: "FAIL sig=c05/hit/wire-body-undecodable " + err.Error()}
+		}
+		ws = describe(wm)
+		if info.AuthenticatedData != wm.AuthenticatedData {
+			or = "FAIL sig=c05/hit/wireinfo-ad-differs-from-body"
+		}
+	}
+	if msg != nil {
+		ms = describe(msg)
+	}
+	// oracle: floor of the remaining lifetime, AD never with CD
+	remMs := ttl*1000 - el
+	if remMs <= 0 {
+		if ok || msg != nil {
+			or = "FAIL sig=c05/hit/served-expired"
+		}
+	} else {
+		want := fmt.Sprintf("%d/%s/%d", remMs/1000, vlib.B(ad && !cd), n)
+		if n == 0 {
+			want = fmt.Sprintf("none/%s/0", vlib.B(ad && !cd))
+		}
+		if ws != want {
+			or = fmt.Sprintf("FAIL sig=c05/hit/wire-ttl-or-ad want=%s got=%s", want, ws)
+		} else if ms != want {
+			or = fmt.Sprintf("FAIL sig=c05/hit/msg-ttl-or-ad want=%s got=%s", want, ms)
+		}
+		if or == "ok" && wm != nil && msg != nil {
+			if wm.Id != 4242 || msg.Id != 4242 || hdrWord(wm.MsgHdr) != hdrWord(msg.MsgHdr) {
+				or = fmt.Sprintf("FAIL sig=c05/hit/header-differs wire=%04x msg=%04x", hdrWord(wm.MsgHdr), hdrWord(msg.MsgHdr))
+			} else if len(wm.Question) != 1 || wm.Question[0].Name != name {
+				or = "FAIL sig=c05/hit/question-spelling-not-echoed " + wm.Question[0].Name
+			}
+		}
+	}
+	return vlib.Res{Impl: fmt.Sprintf("w=%s m=%s", ws, ms), Oracle: or, Tags: "nt"}
+}
+
+// ---------------------------------------------------------------- lad
+
+func execLad(f []string) vlib.Res {
+	switch f[1] {
+	case "new":
+		a := kv(f[2:])
+		startLive(liveCfg{handlers: []string{"recovery", "edns", "cache"}, rfc8198: a["r8198"] == "1", rfc9520: true})
+		return vlib.Res{Impl: "ok", Oracle: "-"}
+	case "run":
+		if live == nil || live.Cache == nil {
+			return vlib.Res{Impl: "no-live"}
+		}
+		a := kv(f[2:])
+		opSeq++
+		n := opSeq
+		cd := a["cd"] == "1"
+		var names [3]string
+		for p := 0; p < 3; p++ {
+			names[p] = fmt.Sprintf("pos.gone.%s-%c.zt.", a["nm"], markers[p])
+		}
+		s := qspec{name: "pos.gone." + a["nm"] + "-@.zt.", qtype: dns.TypeA, qclass: dns.ClassINET, id: 77, rd: true, cd: cd, edns: true, usz: 1232}
+		if a["ex"] == "1" {
+			for p := 0; p < 3; p++ {
+				live.Raw(s.build(markers[p], nil, nil), remoteFor(p, "tcp", false, 60000+n))
+			}
+		}
+		seedState(map[string]string{"cut": a["cut"], "fail": strings.ReplaceAll(a["fail"], "-", "")}, names, dns.TypeA, cd)
+		rung := func(r reply, calls int64) string {
+			switch {
+			case calls > 0:
+				return "miss"
+			case r.m == nil:
+				return "none"
+			case r.m.Rcode == dns.RcodeSuccess && len(r.m.Answer) > 0:
+				return "exact"
+			case r.m.Rcode == dns.RcodeNameError:
+				return "cut"
+			case r.m.Rcode == dns.RcodeServerFailure:
+				return "failure"
+			}
+			return "other"
+		}
+		remote := remoteFor(0, "udp", false, n)
+		c0 := live.Stub.Calls.Load()
+		rc := serve(2, s.build('c', nil, nil), remote, "udp")
+		cc := live.Stub.Calls.Load() - c0
+		c0 = live.Stub.Calls.Load()
+		rb := serve(1, s.build('b', nil, nil), remote, "udp")
+		cb := live.Stub.Calls.Load() - c0
+		wireOut := "decline"
+		if rc.inline == "inline" {
+			wireOut = rung(rc, cc)
+		}
+		impl := fmt.Sprintf("wire=%s msg=%s", wireOut, rung(rb, cb))
+		// oracle: the property — whichever path served, the client sees the same thing
+		or := "ok"
+		if d := diff("inline", "msg", rc, rb, sentInfo{pkt: s.build('c', nil, nil), remote: remote}, sentInfo{pkt: s.build('b', nil, nil), remote: remote}); d != "" {
+			or = "FAIL sig=" + sigOf(d) + " " + d
+		} else if cc != cb {
+			or = fmt.Sprintf("FAIL sig=c05/diff/side-effect upstream calls inline=%d msg=%d", cc, cb)
+		}
+		return vlib.Res{Impl: impl, Oracle: or, Tags: "nt"}
+	}
+	return vlib.Res{Impl: "bad-op"}
+}
+
+// ---------------------------------------------------------------- facts
+
+func facts() map[string]any {
+	ar := func(fl uint16, op int, rd, cd bool) int {
+		b := make([]byte, 12)
+		binary.BigEndian.PutUint16(b[2:], fl)
+		wire.ApplyReply(b, 0, op, rd, cd)
+		return int(binary.BigEndian.Uint16(b[2:]))
+	}
+	var bits, bitsSet, clr []int
+	for i := 0; i < 16; i++ {
+		bits = append(bits, ar(1<<uint(i), 0, false, false))
+		bitsSet = append(bitsSet, ar(1<<uint(i), 15, true, true))
+		b := make([]byte, 12)
+		binary.BigEndian.PutUint16(b[2:], 1<<uint(i))
+		wire.ClearAD(b)
+		clr = append(clr, int(binary.BigEndian.Uint16(b[2:])))
+	}
+	var opc []int
+	for op := 0; op < 16; op++ {
+		opc = append(opc, ar(0, op, false, false))
+	}
+	// ParseWire boundary tables, evaluated on the real function
+	probe := func(optRdata []byte) bool {
+		q := []byte{0, 1, 1, 0, 0, 1, 0, 0, 0, 0, 0, 1, 1, 'a', 0, 0, 1, 0, 1, 0, 0, 41, 4, 208, 0, 0, 0, 0}
+		q = binary.BigEndian.AppendUint16(q, uint16(len(optRdata)))
+		q = append(q, optRdata...)
+		ok, _ := middleware.VerifC05ParseWire(q)
+		return ok
+	}
+	option := func(code uint16, n int) []byte {
+		b := binary.BigEndian.AppendUint16(nil, code)
+		b = binary.BigEndian.AppendUint16(b, uint16(n))
+		return append(b, make([]byte, n)...)
+	}
+	var cookieLens, kaLens, codes []int
+	for n := 0; n <= 48; n++ {
+		if probe(option(dns.EDNS0COOKIE, n)) {
+			cookieLens = append(cookieLens, n)
+		}
+		if probe(option(dns.EDNS0TCPKEEPALIVE, n)) {
+			kaLens = append(kaLens, n)
+		}
+	}
+	for c := 0; c <= 40; c++ {
+		if probe(option(uint16(c), 8)) { // 8 zero octets: valid cookie, NSID, padding, family-0 ECS
+			codes = append(codes, c)
+		}
+	}
+	twoCookies := probe(append(option(dns.EDNS0COOKIE, 8), option(dns.EDNS0COOKIE, 8)...))
+	nameProbe := func(labelLens []int) bool {
+		q := []byte{0, 1, 1, 0, 0, 1, 0, 0, 0, 0, 0, 0}
+		for _, l := range labelLens {
+			q = append(q, byte(l))
+			q = append(q, make([]byte, l)...)
+		}
+		q = append(q, 0, 0, 1, 0, 1)
+		ok, _ := middleware.VerifC05ParseWire(q)
+		return ok
+	}
+	maxLabel := 0
+	for l := 1; l <= 70; l++ {
+		if nameProbe([]int{l}) {
+			maxLabel = l
+		}
+	}
+	// names of k octets: 63-octet labels then a filler label
+	maxName := 0
+	for total := 200; total <= 260; total++ {
+		rest := total - 1 - 3*64
+		if rest < 2 {
+			continue
+		}
+		if nameProbe([]int{63, 63, 63, rest - 1}) {
+			maxName = total
+		}
+	}
+	ec := edns.VerifC05Consts()
+	return map[string]any{
+		"applyReply_single_bits": bits,
+		"applyReply_single_bits_op15_rd_cd": bitsSet,
+		"applyReply_opcodes":     opc,
+		"clearAD_single_bits":    clr,
+		"flagQR":                 wire.FlagQR, "flagAA": wire.FlagAA, "flagTC": wire.FlagTC, "flagRD": wire.FlagRD,
+		"flagRA": wire.FlagRA, "flagAD": wire.FlagAD, "flagCD": wire.FlagCD, "flagOpcodeMsk": wire.FlagOpcodeMsk, "flagOpcodeSh": wire.FlagOpcodeSh,
+		"headerLen": wire.HeaderLen, "optFixedLen": ec["optFixedLen"], "optOptionHdrLen": ec["optOptionHdrLen"],
+		"serverCookieLen": ec["serverCookieLen"], "clientCookieHexLen": ec["clientCookieHexLen"],
+		"cookiePreimageMax": ec["cookiePreimageMax"], "maxTextualAddrLen": ec["maxTextualAddrLen"],
+		"tcpKeepaliveUnits": ec["tcpKeepaliveUnits"],
+		"codeCookie": int(dns.EDNS0COOKIE), "codeNSID": int(dns.EDNS0NSID), "codeKeepalive": int(dns.EDNS0TCPKEEPALIVE),
+		"codeEDE": int(dns.EDNS0EDE), "codeSubnet": int(dns.EDNS0SUBNET), "codePadding": int(dns.EDNS0PADDING), "typeOPT": int(dns.TypeOPT),
+		"defaultMsgSize": dnsutil.DefaultMsgSize, "minMsgSize": dns.MinMsgSize,
+		"parsewire_cookie_lens_ok": cookieLens, "parsewire_keepalive_lens_ok": kaLens, "parsewire_option_codes_ok": codes,
+		"parsewire_two_cookies_ok": twoCookies, "parsewire_max_label": maxLabel, "parsewire_max_name": maxName,
+		"acceptHeader_query_qr0": server.VerifC05AcceptHeader([]byte{0, 1, 1, 0, 0, 1, 0, 0, 0, 0, 0, 0}),
+	}
+}
 
 func main() {
 	defer stopLive()
